@@ -348,6 +348,62 @@ def init_assigns(klass, attr, ctor, rel):
     return len(hits) == 1 and U(hits[0].value) == ctor
 
 
+# ---------------------------------------------------------------- who writes instance state of shared objects
+# Every object of these modules except the per-request contexts is shared by all threads.  Any statement outside
+# __init__ that assigns, deletes, fills or mutates an attribute of `self` is listed; the list is pinned by
+# Props/C12.v, so a new lazily filled table or cache on a protocol / transport / interface / application object
+# breaks an obligation until it has been looked at (and, if it is filled at request time, modelled).
+STATE_FILES = [
+    'spyne/application.py', 'spyne/interface/_base.py', 'spyne/protocol/_base.py', 'spyne/protocol/_inbase.py',
+    'spyne/protocol/_outbase.py', 'spyne/protocol/xml.py', 'spyne/protocol/soap/soap11.py',
+    'spyne/protocol/soap/soap12.py', 'spyne/protocol/dictdoc/_base.py', 'spyne/protocol/dictdoc/hier.py',
+    'spyne/protocol/dictdoc/simple.py', 'spyne/protocol/json.py', 'spyne/protocol/http.py',
+    'spyne/server/_base.py', 'spyne/server/http.py', 'spyne/server/wsgi.py',
+    'spyne/interface/wsdl/wsdl11.py', 'spyne/interface/xml_schema/_base.py',
+]
+MUTATORS = {'append', 'extend', 'insert', 'remove', 'pop', 'popitem', 'clear', 'update', 'setdefault', 'add',
+            'discard', 'sort', 'reverse'}
+
+def per_request(cls):
+    return cls.name.endswith('Context') or cls.name in ('_ResponseIterator',)
+
+def self_attr(n):
+    return n.attr if isinstance(n, ast.Attribute) and isinstance(n.value, ast.Name) and n.value.id == 'self' else None
+
+def state_writers(repo):
+    out = set()
+    for rel in STATE_FILES:
+        mod = tree(repo, rel)
+        short = rel[len('spyne/'):]
+        for cls in [n for n in ast.walk(mod) if isinstance(n, ast.ClassDef)]:
+            if per_request(cls):
+                continue
+            for fn in [n for n in cls.body if isinstance(n, (ast.FunctionDef, ast.AsyncFunctionDef))]:
+                if fn.name == '__init__':
+                    continue
+                for n in ast.walk(fn):
+                    what = None
+                    if isinstance(n, ast.Attribute) and isinstance(n.ctx, (ast.Store, ast.Del)) and self_attr(n):
+                        what = 'self.%s=' % n.attr
+                    elif isinstance(n, ast.Subscript) and isinstance(n.ctx, (ast.Store, ast.Del)) and self_attr(n.value):
+                        what = 'self.%s[]=' % n.value.attr
+                    elif isinstance(n, ast.Call) and isinstance(n.func, ast.Attribute) and n.func.attr in MUTATORS \
+                            and self_attr(n.func.value):
+                        what = 'self.%s.%s()' % (n.func.value.attr, n.func.attr)
+                    elif isinstance(n, ast.Call) and isinstance(n.func, ast.Name) and n.func.id in ('setattr', 'delattr') \
+                            and n.args and isinstance(n.args[0], ast.Name) and n.args[0].id == 'self':
+                        what = '%s(self)' % n.func.id
+                    elif isinstance(n, ast.Attribute) and n.attr == '__dict__' and isinstance(n.value, ast.Name) \
+                            and n.value.id == 'self':
+                        what = 'self.__dict__'
+                    if what:
+                        out.add('%s:%s.%s:%s' % (short, cls.name, fn.name, what))
+    for x in out:
+        if '"' in x:
+            raise TranslateError('quote in a state-writer entry: %r' % x)
+    return sorted(out)
+
+
 def generate(repo):
     sk = {}
     for key, rel, cls, fn in SITES:
@@ -380,12 +436,16 @@ def generate(repo):
          init_assigns(find_class(memo, 'memoize', 'memo.py'), 'lock', 'threading.RLock()', 'memo.py')),
         ('vlock_is_lock', 'XmlDocument.__init__: self._validation_lock = threading.Lock()',
          init_assigns(find_class(xml, 'XmlDocument', 'xml.py'), '_validation_lock', 'threading.Lock()', 'xml.py')),
+        ('caches_exact', 'ProtocolMixin.__init__: _attrcache / _sortcache are WeakKeyDictionary() - looked up by the '
+                         'exact class, never through a base-class fall-back (cdict)',
+         init_assigns(find_class(base, 'ProtocolMixin', '_base.py'), '_attrcache', 'WeakKeyDictionary()', '_base.py') and
+         init_assigns(find_class(base, 'ProtocolMixin', '_base.py'), '_sortcache', 'WeakKeyDictionary()', '_base.py')),
     ]
 
     out = ['(** GENERATED by harness/translate/conctext.py from the shared-state functions of',
            '    spyne/server/wsgi.py, interface/wsdl/wsdl11.py, protocol/_base.py, protocol/xml.py,',
            '    util/memo.py, util/cdict.py.  Do not edit. *)',
-           'From SpyneV Require Import C12.Text.', 'Open Scope sk_scope.', '']
+           'From Coq Require Import String List.', 'From SpyneV Require Import C12.Text.', 'Open Scope sk_scope.', '']
     for key, rel, cls, fn in SITES:
         out.append('(* %s : %s.%s *)' % (rel, cls, fn))
         out.append('Definition g_%s : sk := %s.' % (key, sk[key]))
@@ -395,4 +455,9 @@ def generate(repo):
         out.append('Definition g_%s : bool := %s.' % (name, 'true' if val else 'false'))
     out.append('')
     out.append('Definition g_side : bool := %s.' % ' && '.join('g_' + n for n, _, _ in side))
+    out.append('')
+    out.append('(* every statement outside __init__ that writes instance state of a shared object *)')
+    out.append('Definition g_state_writers : list string := (')
+    out.append('\n'.join('  "%s" ::' % x for x in state_writers(repo)))
+    out.append('  nil)%string.')
     return {'ConcText.v': '\n'.join(out) + '\n'}
